@@ -248,7 +248,7 @@ pub fn check() -> PropertyCheck {
         subs: vec![
             Box::new(Pbt {
                 name: "identity-e2e",
-                quick: 30_000,
+                quick: 100_000,
                 thorough: 2_000_000,
                 strat,
                 test,
